@@ -16,12 +16,11 @@ here (same comparison operators; this is the code AFTER the repairs fix F09a [`!
                                  if SpilloverEnabled && windowEndTime != epoch {
                                     if now.Day() == RenewOnDay { spill = 0 } else { spill += allowed - counter } }
                                  counter = 0 ; windowEndTime = end }
-    max := int64(math.Ceil(float64(allowed + spill) * ratio))
+    max := scaledCeil(allowed + spill, ratio)        -- fix F09b: ⌈(allowed+spill)·round(ratio·1e8)/1e8⌉ in int64
     if counter >= max { Block } else { counter++ ; Proceed }
 
-The cap computation is a parameter `cap : CapFn` of the model; the executable instance `capFloat` repeats
-the Go float64 operations with Lean's `Float` (IEEE binary64) – it is opaque to the kernel, theorems
-quantify over every `cap`.
+The cap computation is a parameter `cap : CapFn` of the model (theorems quantify over every `cap`); the
+instance that mirrors the code after fix F09b is the integer computation `capUnits`.
 -/
 namespace LunarVerif.C09
 
@@ -44,18 +43,24 @@ deriving DecidableEq, Repr
 /-- `(allowed + spillover, ratio) ↦ maxAllowedInWindow`. -/
 abbrev CapFn := Int → Ratio → Int
 
-def ratioFloat : Ratio → Float
-  | .one => 1.0
-  | .pct n d => (Float.ofNat n / Float.ofNat d) / 100.0
+/-- `int64(math.Round(ratio * 1e8))` (fix F09b): the ratio in units of 1e-8.  The ratio is
+    `(num/den)/100` computed in float64; its distance to the decimal it stands for is ~1e-17, far below half a
+    unit, so the rounded value is the exact rounding (half away from zero) of `num·10^6/den` — modelled so;
+    the float step itself is outside the kernel and covered by the correspondence run. -/
+def ratioUnits : Ratio → Int
+  | .one => 100000000
+  | .pct n d => if d = 0 then 0 else (((2 * n * 1000000 + d) / (2 * d) : Nat) : Int)
 
-/-- Go: `int64(math.Ceil(float64(allowed+spill) * ratio))`. -/
-def capFloat : CapFn := fun total r =>
-  (Float.ceil (Float.ofInt total * ratioFloat r)).toInt64.toInt
+/-- Go (after fix F09b): `scaledCeil(allowed+spill, ratio)` = ⌈total · units / 1e8⌉ in integers
+    (truncating division plus one when a positive product leaves a remainder). -/
+def capUnits : CapFn := fun total r => -((-(total * ratioUnits r)) / 100000000)
 
--- build-time TESTS (compiled evaluation, not kernel theorems): the float cap of 100 × 7 % is 8 (F09b)
-#guard capFloat 100 (.pct 7 1) == 8
-#guard capFloat 4 (.pct 25 1) == 1
-#guard capFloat 5 .one == 5
+-- build-time TESTS: 100 × 7 % is 7 (was 8 with the float64 product: F09b)
+#guard capUnits 100 (.pct 7 1) == 7
+#guard capUnits 4 (.pct 25 1) == 1
+#guard capUnits 5 .one == 5
+#guard capUnits (-3) (.pct 50 1) == -1
+#guard capUnits 10 (.pct 725 100) == 1
 
 /-- Day of month (UTC) of an instant, civil-from-days. `time.Time.Day()` with `time.Local = UTC`. -/
 def dayOfMonth (ns : Nat) : Int :=
@@ -190,9 +195,24 @@ end Limiter
 
 /-! ### Plugin layer -/
 
-/-- `RequestArguments`: remedy name, and for grouped limits the lower-cased header name and the header
-    value (the code stores `lower(name) ++ ":" ++ trim(hash(value))`; the hash is modelled as injective
-    with whitespace-free output, so the raw value stands for it). -/
+/-- `unicode.IsSpace` (what `strings.TrimSpace` strips). -/
+def isGoSpace (c : Char) : Bool :=
+  c == ' ' || c == '\t' || c == '\n' || c.toNat == 0x0B || c.toNat == 0x0C || c == '\r' || c.toNat == 0x85 ||
+  c.toNat == 0xA0 || c.toNat == 0x1680 || (0x2000 ≤ c.toNat && c.toNat ≤ 0x200A) || c.toNat == 0x2028 ||
+  c.toNat == 0x2029 || c.toNat == 0x202F || c.toNat == 0x205F || c.toNat == 0x3000
+
+/-- `strings.TrimSpace` -/
+def goTrim (s : String) : String :=
+  String.ofList ((s.toList.dropWhile isGoSpace).reverse.dropWhile isGoSpace).reverse
+
+/-- What `buildGroupID` puts after the colon: `strings.TrimSpace(obfuscator.ObfuscateString(value))`.
+    Production wiring (`services.go`) passes the IDENTITY obfuscator: the key holds the header value itself,
+    minus surrounding white space, in its original letter case.  With the MD5 obfuscator (unit tests) the hash
+    is modelled as injective with whitespace-free output, so the raw value stands for it. -/
+def normGroup (identityHash : Bool) (v : String) : String := if identityHash then goTrim v else v
+
+/-- `RequestArguments`: remedy name, and for grouped limits the LOWER-CASED header NAME (only the name is
+    folded) and the normalised header value (`normGroup`); the code stores `lower(name) ++ ":" ++ that`. -/
 structure Key where
   remedy : String
   group  : Option (String × String)
@@ -214,6 +234,9 @@ structure Remedy where
   spillOn  : Bool
   renewDay : Int
   alloc    : Option Alloc
+  /-- plugin wiring, carried with the remedy for convenience: `true` = identity obfuscator (production),
+      `false` = MD5 obfuscator -/
+  identityHash : Bool := true
 deriving Repr
 
 inductive Answer where
@@ -252,7 +275,7 @@ def resolve (r : Remedy) (hs : List (String × String)) : Resolved :=
     | none => .direct .panic
     | some hn =>
       let v := lookupHdr hs hn
-      let key : Key := ⟨r.name, some (hn.toLower, v)⟩
+      let key : Key := ⟨r.name, some (hn.toLower, normGroup r.identityHash v)⟩
       match findGroup v a.groups with
       | some (n, d) => mk key (.pct n d)
       | none =>
@@ -260,6 +283,16 @@ def resolve (r : Remedy) (hs : List (String × String)) : Resolved :=
         else if a.default == "block" then .direct (.early (effStatus r))
         else if a.default == "use_default_allocation" then mk key (.pct a.dnum a.dden)
         else .direct .noop
+
+/-- The group a request belongs to AS THE ALLOCATION TABLE DISTINGUISHES GROUPS (exact header value): the
+    identity the property speaks about ("for each remedy and group").  `none` for requests without a group. -/
+def specKey (r : Remedy) (hs : List (String × String)) : Key :=
+  match r.alloc with
+  | none => ⟨r.name, none⟩
+  | some a =>
+    match a.groupBy with
+    | none => ⟨r.name, none⟩
+    | some hn => ⟨r.name, some (hn.toLower, lookupHdr hs hn)⟩
 
 /-- `StrategyBasedThrottlingPlugin.OnRequest` at instant `t`. -/
 def pluginStep (cap : CapFn) (st : State Key) (r : Remedy) (hs : List (String × String)) (t : Nat) :
